@@ -12,7 +12,7 @@ from props.c02 import scn_from_json, scn_json
 from props.c05 import gen_cfg
 from vp import calharness as ch
 from vp import twin
-from vp.core import LEAN, Check
+from vp.core import LEAN, Check, HarnessError
 from vp.deep import deep, diff
 from vp.tape import RecGen
 
@@ -100,6 +100,40 @@ def trace_conformance(chk, rng):
         sd.default_rng = orig
 
 
+def history_digest(h, rets):
+    import hashlib
+    d = hashlib.sha256()
+    for k in sorted(h):
+        d.update(k.encode()); d.update(np.ascontiguousarray(h[k]).tobytes())
+    for p, l in rets:
+        d.update(np.ascontiguousarray(p).tobytes()); d.update(np.asarray(l, dtype=float).tobytes())
+    return d.hexdigest()
+
+
+def fresh_process_twins(chk: Check, rng):
+    import json as _json, os, subprocess, sys
+    from vp.core import VERIF
+    child = VERIF / "harness/children/twin_child.py"
+    env = dict(os.environ)
+    for i in range(3 if chk.tier == "quick" else 12):
+        # increasing dimensionalities within this process (2, 3, then 4 parameters), every class that keeps tables or caches of its own
+        dims = [2, 3, 4][i % 3]
+        cfg = {"lineup": [("HaltonSampler", 3, None), (rng.choice(["RSequenceSampler", "RandomUniformSampler", "BestBatchSampler"]), 2, None), ("HaltonSampler", 2, None)],
+               "dims": dims, "loss": rng.choice(["minkowski", "msm"]), "ensemble": 1, "seed": rng.randrange(10 ** 6), "n_jobs": 1, "sched": "rl" if i % 3 == 2 else "rr"}
+        n = rng.randint(2, 4)
+        h, rets, _ = twin.run_segments(cfg, [(n, "end")], use_folder=False)
+        here = history_digest(h, rets)
+        p = subprocess.run([sys.executable, str(child), _json.dumps(cfg), str(n)], capture_output=True, text=True, env=env, timeout=600)
+        there = next((l.split()[1] for l in p.stdout.splitlines() if l.startswith("DIGEST")), None)
+        chk.case(["fresh-process", cfg, n], True, {"dims": dims, "sched": cfg["sched"], "same_digest": here == there})
+        chk.count("fresh_process_twin")
+        if there is None:
+            raise HarnessError("fresh-process twin produced no digest: " + p.stderr[-300:])
+        if here != there:
+            chk.fail(f"the same configuration and seed give a different history in a fresh interpreter than in this process (after earlier calibrations): dims={dims}",
+                     {"case": {"kind": "fresh-process", "cfg": cfg, "n": n}})
+
+
 def run(chk: Check):
     rng = chk.rng
     chk.rule = ("differential pairs on the real code: same configuration and calibrator seed, varying n_jobs in {1,2,4}, verbosity, saving folder and the "
@@ -157,6 +191,9 @@ def run(chk: Check):
             chk.fail(f"history depends on {changed}: fields {bad} differ", {"case": {"kind": "pair", "cfg": cfg, "other": other, "n": n, "folder": use_folder}})
         elif any(a[0].tobytes() != b[0].tobytes() or np.asarray(a[1], dtype=float).tobytes() != np.asarray(b[1], dtype=float).tobytes() for a, b in zip(rets, r)):
             chk.fail(f"return values depend on {changed}", {"case": {"kind": "pair", "cfg": cfg, "other": other, "n": n, "folder": use_folder}})
+    # the result must not depend on what ran earlier in the same process: the same configuration in a fresh interpreter and here, after all
+    # the runs above (samplers with process-wide caches, class attributes, module-level state)
+    fresh_process_twins(chk, rng)
     # model correspondence of the seeding cascade (which draw goes to which sampler, generator position) on stubs, n_jobs 1/2
     for i in range(30 if chk.tier == "quick" else 400):
         scn = ch.gen_scn(rng, sched=rng.choice(["rr", "rr", "rl"]), max_batches=5, njobs=rng.choice([1, 1, 2]))
